@@ -7,7 +7,9 @@ import (
 
 	"verif/internal/c01"
 	"verif/internal/c02"
+	"verif/internal/c03"
 	"verif/internal/c04"
+	"verif/internal/c05"
 	"verif/internal/c06"
 	"verif/internal/c07"
 	"verif/internal/c08"
@@ -26,7 +28,9 @@ import (
 var checks = map[string]func(tier, replay string){
 	"C01": c01.Main,
 	"C02": c02.Main,
+	"C03": c03.Main,
 	"C04": c04.Main,
+	"C05": c05.Main,
 	"C06": c06.Main,
 	"C07": c07.Main,
 	"C08": c08.Main,
